@@ -156,4 +156,28 @@ theorem failed_write_closes (s : Sess) {cs : CS} (r : Reach (initCS s) cs) (t : 
     (hpc : (cs.task t).pc = .wdone .errIo fs) : cs.s.closed = true :=
   (inv_reach s r).o.ac t (by rw [hpc]; rfl)
 
+/-- T9.3 `every_schedule_is_bounded`: from any reachable state, under EVERY interleaving (no
+fairness assumed), the tasks can take at most `totalCost K` further actions altogether, where
+`K` only has to exceed the number of `write_all` calls one packet of the scheme can need by 12:
+no task runs for ever, no livelock.  With `no_deadlock`: the run can only stop when every task
+has finished — nothing blocks for ever. -/
+theorem every_schedule_is_bounded (s : Sess) (hc : s.closed = false) {cs : CS} (r : Reach (initCS s) cs)
+    (K : Nat) (hK : cs.s.scheme.maxParts + 12 ≤ K) (l : List Nat) (cs' : CS) (h : runSched cs l = some cs') :
+    l.length ≤ totalCost K cs :=
+  Nat.le_trans (Nat.le_add_right _ _) (sched_bounded K l cs cs' (inv9_reach s hc r).ids hK h)
+
+/-- … and a run that cannot be continued has finished every task -/
+theorem stuck_means_finished (s : Sess) (hc : s.closed = false) {cs : CS} (r : Reach (initCS s) cs)
+    (hstuck : ∀ u, micro cs u = none) (t : Nat) : (cs.task t).pc = .fin := by
+  cases hp : (cs.task t).pc with
+  | fin => rfl
+  | _ =>
+    all_goals
+      exfalso
+      obtain ⟨u, c, hu⟩ := no_deadlock s hc r t (by rw [hp]; intro e; cases e)
+      rw [hstuck u] at hu; cases hu
+
+/-- non-vacuity: the demo state of C11 (two tasks, fresh client session) has a finite budget -/
+example : demoCS.s.scheme.maxParts + 12 ≤ 14 ∧ totalCost 14 demoCS = 77 := by decide +kernel
+
 end AnyTLS.C09
